@@ -3,6 +3,7 @@ package main
 import (
 	"context"
 	"fmt"
+	"github.com/fullstorydev/grpchan/inprocgrpc"
 	"google.golang.org/grpc/codes"
 	"google.golang.org/grpc/status"
 	"io"
@@ -201,6 +202,71 @@ func runC05HTTP(o *hx.Out, r *hx.Rand, thorough bool) {
 			map[string]interface{}{"transport": t.name, "scenario": "handler: 5 sends on one goroutine, receives on another; client: 6 sends, CloseSend, then receives", "completed_in_3s": ok, "client_sends_ok": sends, "client_received": got, "final": fmt.Sprint(fin)},
 			"a handler sending and receiving concurrently deadlocked with a client that sends before it receives")
 		t.stop()
+	}
+	// (c2a) CloseSend from a second client goroutine lands while a SendMsg is cloning its message (a cloner
+	// that takes its time): whichever order they take effect in, nothing panics and both return
+	{
+		cloning, proceed := make(chan struct{}, 1), make(chan struct{})
+		var gate int32 = 1
+		slow := &slowCloner{inner: inprocgrpc.ProtoCloner{}, before: func() {
+			if atomic.CompareAndSwapInt32(&gate, 1, 0) {
+				cloning <- struct{}{}
+				<-proceed
+			}
+		}}
+		ipc := (&inprocgrpc.Channel{}).WithCloner(slow)
+		ipc.RegisterService(hx.Desc(hx.SvcName), &hx.Svc{Stream: func(kind string, ss grpc.ServerStream) error {
+			for ss.RecvMsg(&hx.Msg{}) == nil {
+			}
+			time.Sleep(150 * time.Millisecond) // the handler does not return at once: no "server is done" to save a late send
+			return nil
+		}})
+		ctx, cancel := context.WithTimeout(context.Background(), 4*time.Second)
+		cs, err := ipc.NewStream(ctx, hx.StreamDescOf("BD"), "/verif.Svc/BD")
+		var sendRes, closeRes, panicked atomic.Value
+		sendDone, closeDone := make(chan struct{}), make(chan struct{})
+		if err == nil {
+			go func() {
+				defer close(sendDone)
+				defer func() {
+					if p := recover(); p != nil {
+						panicked.Store(fmt.Sprint(p))
+					}
+				}()
+				sendRes.Store(fmt.Sprint(cs.SendMsg(&hx.Msg{Count: 1})))
+			}()
+			<-cloning
+			go func() {
+				defer close(closeDone)
+				defer func() {
+					if p := recover(); p != nil {
+						panicked.Store(fmt.Sprint(p))
+					}
+				}()
+				closeRes.Store(fmt.Sprint(cs.CloseSend()))
+			}()
+			time.Sleep(40 * time.Millisecond)
+			close(proceed)
+		}
+		ok := err == nil && within(2*time.Second, func() { <-sendDone; <-closeDone })
+		var fin error
+		if ok {
+			ok = within(2*time.Second, func() {
+				for {
+					if fin = cs.RecvMsg(&hx.Msg{}); fin != nil {
+						return
+					}
+				}
+			})
+		}
+		cancel()
+		runtime.KeepAlive(cs)
+		pp, _ := panicked.Load().(string)
+		sr, _ := sendRes.Load().(string)
+		cr, _ := closeRes.Load().(string)
+		probe("close_send_while_send_is_cloning_inprocgrpc", ok && pp == "" && fin == io.EOF,
+			map[string]interface{}{"transport": "inprocgrpc", "scenario": "SendMsg is inside the cloner when CloseSend is called from another goroutine", "send_result": sr, "close_send_result": cr, "panic": pp, "final": fmt.Sprint(fin), "all_returned": ok},
+			"CloseSend racing a SendMsg that was cloning its message panicked or left an operation blocked")
 	}
 	// (c2b) a second handler goroutine is parked in SendMsg (the client is not receiving yet, the buffer is
 	// full) at the moment the handler returns: the parked send must return (nil, io.EOF or another error),
@@ -422,4 +488,16 @@ func runC05HTTP(o *hx.Out, r *hx.Rand, thorough bool) {
 		probe("F14", bad == 0, map[string]interface{}{"transport": "httpgrpc", "scenario": "the stream's last use is a RecvMsg that is still in flight while the garbage collector runs", "calls_cancelled_by_the_finalizer": bad, "of": 3}, "")
 		stop()
 	}
+}
+
+// slowCloner calls before() ahead of every Clone
+type slowCloner struct {
+	inner  inprocgrpc.Cloner
+	before func()
+}
+
+func (c *slowCloner) Copy(out, in interface{}) error { return c.inner.Copy(out, in) }
+func (c *slowCloner) Clone(in interface{}) (interface{}, error) {
+	c.before()
+	return c.inner.Clone(in)
 }
